@@ -15,7 +15,7 @@ RULE = ("scripts = one behaviour per reachable state of the bounded design model
 
 def model_to_script(i, ops):
     return {"run": f"m{i}", "peers": 2, "repos": 2, "capacity": 1, "rng": 7 + i % 5, "persistent": [2],
-            "ops": [list(op) + (["ok"] if op[0] == "done" else []) for op in ops]}
+            "ops": [list(op) for op in ops]}
 
 
 def random_script(rng, i):
@@ -88,7 +88,7 @@ def run(ctx):
     if res.violated:
         ctx.violation(f"model:{res.violated}", "the design model violates the invariant", {"tlc": res.error_trace[:120]})
         return ctx.finish(rule=RULE)
-    ctx.require_coverage(res, ["Attempt", "Connect", "Disconnect", "StaleDisconnect", "Retry", "FetchCmd", "AnnFetch", "Idle"])
+    ctx.require_coverage(res, ["Attempt", "Connect", "Disconnect", "StaleDisconnect", "FetchCmd", "AnnFetch", "Wake", "Done"])
     for name, cfgd, inv in (("late-same-peer", "MCFetchSched_dev1.cfg", "C16_Attribution"), ("late-any-peer", "MCFetchSched_dev2.cfg", "C16_OneLive")):
         dev = ctx.tlc("MCFetchSched", cfgd, workers=8, timeout=900, coverage=False, count=False, heap="8g",
                       label=f"sanity: deviation {name} must violate {inv}")
@@ -158,6 +158,10 @@ def run(ctx):
             ctx.violation(f"{v['c']}:{v['why'] if v['c'] != 'C16_Panic' else v['why'].split(':')[0]}",
                           f"run {run_id} step {json.dumps(c['op'])}: {v['c']} ({v['why']}) task {v['gid']} / {v['other']}",
                           {"script": runs.get(run_id), "op": c["op"]})
+    # Strict conformance of the design model (informational: drift, not a violation): the executions of the
+    # model's own behaviours must be behaviours of FetchSched.tla's ACTIONS with the observed fetch table,
+    # session states, fetching sets, queue lengths and emitted fetches (spec/TraceFetchSchedOp.tla).
+    conformance = model_conformance(ctx, events, thorough)
     # wire level: the same clauses with the REAL Wire::worker_result gate and Io::Fetch -> Task translation
     import importlib.util
     spec = importlib.util.spec_from_file_location("wire_common_for_c16", os.path.join(os.path.dirname(__file__), "wire_common.py"))
@@ -178,8 +182,51 @@ def run(ctx):
     ctx.assumptions += ["service-level runs apply the rule of Wire::worker_result in the harness; the wire-level runs execute the real Wire (peers registered through the verif_established hook, no sockets)",
                         "a reconnect is a disconnect followed by a connect",
                         "the repository's Peer test double drives the same Service code as the runtime"]
-    return ctx.finish(rule=RULE, extra={"fetches_emitted": fetches, "model_behaviours": len(behaviours), "random_runs": nrand, "wire_level": wstats,
+    return ctx.finish(rule=RULE, extra={"fetches_emitted": fetches, "model_behaviours": len(behaviours), "random_runs": nrand, "wire_level": wstats, "model_conformance": conformance,
                                         "liveness_beyond_listed_property": liveness})
+
+
+def model_conformance(ctx, events, thorough):
+    ep = os.path.join(ctx.work, "mevents.ndjson")
+    nm, keep, budget = 0, False, (15000 if thorough else 3000)
+    with open(ep, "w") as f:
+        for line in events:
+            if line.startswith('{"ev":"init"'):
+                keep = str(json.loads(line)["run"]).startswith("m") and nm < budget
+                nm += 1 if keep else 0
+            if keep:
+                f.write(line)
+    try:
+        okm, infom, _ = ctx.validate("TraceFetchSchedOp", "TraceFetchSchedOp.cfg", ep, timeout=3000, heap="8g", label="strict model conformance (informational)")
+    except vlib.ToolError as e:
+        return {"behaviours": nm, "accepted": None, "error": str(e)[:300]}
+    out = {"behaviours": nm, "accepted": okm, "rejected": infom.get("rejected")}
+    if not okm:
+        vlib.log(f"MODEL-DRIFT (not a violation): the real Service left FetchSched.tla's actions: {infom.get('rejected')}")
+        return out
+    # binding self-test: a log with one queue length changed / one emitted fetch dropped must be rejected
+    lines = open(ep).read().splitlines()
+    for kind in ("queue-length", "drop-fetch"):
+        done, outl = False, []
+        for ln in lines:
+            e = json.loads(ln)
+            if not done and e["ev"] == "step":
+                if kind == "queue-length" and e["sess"]:
+                    e["sess"][0][3] += 1
+                    done = True
+                elif kind == "drop-fetch" and e["fetches"]:
+                    e["fetches"], done = e["fetches"][:-1], True
+            outl.append(json.dumps(e, separators=(",", ":")))
+        if not done:
+            raise vlib.ToolError(f"binding self-test: nothing to corrupt ({kind})")
+        cp = os.path.join(ctx.work, f"selftest-{kind}.ndjson")
+        with open(cp, "w") as f:
+            f.write("\n".join(outl) + "\n")
+        okc, _, _ = ctx.validate("TraceFetchSchedOp", "TraceFetchSchedOp.cfg", cp, timeout=3000, heap="8g", label=f"binding self-test: {kind}")
+        if okc:
+            raise vlib.ToolError(f"binding self-test failed: corrupted log ({kind}) was accepted by TraceFetchSchedOp")
+    out["selftest_corrupted_logs_rejected"] = 2
+    return out
 
 
 def replay(ctx, path):
